@@ -282,6 +282,27 @@ fn parsing(acc: &mut Acc, tier: Tier) {
         }
         cur = nxt;
     }
+    // every name followed by every tail of up to 3 characters over characters of 1, 2, 3 and 4 bytes
+    // (a scanner that slices by byte length must not split a character)
+    let tail_chars = ['x', 'é', '€', '\u{1F600}'];
+    let mut tails: Vec<String> = vec![String::new()];
+    for _ in 0..3 {
+        let mut nxt = vec![];
+        for t in &tails {
+            for c in tail_chars {
+                let mut x = t.clone();
+                x.push(c);
+                nxt.push(x);
+            }
+        }
+        for t in &nxt {
+            for n in &names {
+                seen.insert(format!("{}{}", n, t));
+                seen.insert(format!("{}{}", &n[..n.len().min(3)], t));
+            }
+        }
+        tails = nxt;
+    }
     seen.insert(String::new());
     for s in &seen {
         parse_one(acc, s);
